@@ -2,6 +2,7 @@
 Helper lemmas for C04 (re-reading environments).  The property theorems are in `Props/C04.lean`.
 -/
 import CobaVerif.Model.C04
+import CobaVerif.Generated.C04Stages
 import Mathlib.Tactic.Linarith
 import Mathlib.Data.List.Basic
 
@@ -1531,5 +1532,104 @@ theorem gpick_delivers_held {α : Type} (d : α) (s : GStage α) (hs : s = .shar
     obtain ⟨i, _, hi⟩ := ha
     exact List.mem_of_getElem? hi
 
+/-! # Phase 5: translator obligations — the extracted source (`Generated/C04Stages.lean`) is what the model assumes -/
+
+theorem stage_table_matches_source' :
+    Generated.extracted = true ∧
+    Generated.envStateful = stageRows "env" ∧ Generated.pipeStateful = stageRows "pipe" ∧ Generated.srcStateful = stageRows "src" ∧
+    Generated.envClasses = modelEnvClasses ∧
+    Generated.envHeld = modelEnvHeld ∧ Generated.pipeHeld = [] ∧ Generated.srcHeld = [] := by
+  refine ⟨rfl, ?_, ?_, ?_, ?_, ?_, rfl, rfl⟩ <;> decide
+
+/-- every attribute the source writes outside `__init__` may change in the model (`stateAllowed`), and nothing else may:
+for a class name outside the table no attribute is allowed -/
+theorem stage_table_sound' :
+    (∀ r ∈ Generated.envStateful ++ Generated.pipeStateful ++ Generated.srcStateful, ∀ a ∈ r.2, stateAllowed [r.1] a = true) ∧
+    (∀ (mro : List String) (a : String), (∀ r ∈ stageTable, r.cls ∉ mro) → stateAllowed mro a = false) := by
+  refine ⟨by decide, ?_⟩
+  intro mro a h
+  unfold stateAllowed
+  rw [List.any_eq_false]
+  intro r hr
+  have := h r hr
+  simp [this]
+
+theorem cache_shortcut_matches_source' (w : World) (j : Nat) (o : Obj) :
+    Node.cache Generated.shortcutCacheSlice Generated.shortcutCacheProtected (if Generated.cacheStartsUnread then .unread else .done []) = shortcutCacheNode ∧
+    Generated.cacheDefaultSlice = some 25 ∧ Generated.cacheDefaultProtected = false ∧
+    stepObj w j o (.cache j) =
+      (pushObj w (some { src := o.src, nodes := (finalized w.fin (o.base ++ [shortcutCacheNode])).1,
+                         ownFin := (finalized w.fin (o.base ++ [shortcutCacheNode])).2 }), .derived) ∧
+    Generated.chunkCacheDefault = true ∧ Generated.chunkJoins = "Chunk" ∧ Generated.chunkIsIdentity = true ∧
+    (∀ u, chunkP.f u = u) ∧
+    stepObj w j o (.chunk j) =
+      (pushObj w (some { src := o.src, nodes := (finalized w.fin (o.base ++ [.pure chunkP, shortcutCacheNode])).1,
+                         ownFin := (finalized w.fin (o.base ++ [.pure chunkP, shortcutCacheNode])).2 }), .derived) := by
+  refine ⟨rfl, rfl, rfl, rfl, rfl, by decide, rfl, fun _ => rfl, rfl⟩
+
+theorem materialize_matches_source' (w : World) (j : Nat) (o : Obj) :
+    (∀ n : Node, keptByMaterialize n = Generated.nocache (isCache n) n.prot) ∧
+    Node.cache Generated.materializeCacheSlice Generated.materializeCacheProtected .unread = materializeCacheNode ∧
+    Generated.materializeOnlyWhenLastNotCache = true ∧ Generated.materializeForcesRead = true ∧ Generated.materializeFinalizesFirst = true ∧
+    (lastIsCache (finalized w.fin o.base).1 = true →
+      stepObj w j o (.materialize j) = (pushObj w (some { src := o.src, nodes := (finalized w.fin o.base).1, ownFin := false }), .derived)) ∧
+    (lastIsCache (finalized w.fin o.base).1 = false →
+      stepObj w j o (.materialize j) =
+        (let m : Obj := { src := o.src, nodes := (finalized w.fin o.base).1.filter keptByMaterialize ++ [materializeCacheNode], ownFin := false }
+         (pushObj (setObj w j { o with src := (m.touch .all).src }) (some (m.touch .all)), .derived))) := by
+  refine ⟨fun n => by cases n <;> simp [keptByMaterialize, isCache, Node.prot, Generated.nocache], rfl, rfl, rfl, rfl, ?_, ?_⟩
+  · intro h; simp [stepObj, h]
+  · intro h; simp [stepObj, h, materializeCacheNode]
+
+theorem pipeline_constants_match_source' (fin : PureSt) (ns : List Node) :
+    Generated.finalizeWrap = ["BatchSafe", "Finalize"] ∧
+    Generated.finalizeTest = [("e", "BatchSafe"), ("e._filter", "Finalize")] ∧
+    Generated.finalizeHolds = ["EmptyCheck"] ∧
+    finalized fin ns = (if ns.any isFinalize then (ns, false) else (ns ++ [.finalize fin Generated.emptyCheckInit], true)) ∧
+    Generated.envCacheCopies = true ∧
+    Generated.shuffleLoggedFactor = loggedSeedFactor ∧ Generated.shuffleLoggedKeys = loggedKeys ∧
+    Generated.batchSafeJoin = ["Unbatch", "self._filter", "Batch"] ∧
+    (∀ b ∈ Generated.saveBatchSizes, b = saveBatchModel + 1) ∧ Generated.saveBatchSizes ≠ [] := by
+  refine ⟨by decide, by decide, by decide, rfl, rfl, rfl, by decide, by decide, by decide, by decide⟩
+
+/-! # Phase 5: Noise with integer draws on content -/
+
+theorem noise_int_row' (lo hi : Int) : ∀ (r : List C11.Val) (s : Nat),
+    (noiseIntRow lo hi s r).1 = iterNext (r.filter drawsNoise).length s ∧ (noiseIntRow lo hi s r).2.length = r.length := by
+  intro r
+  induction r with
+  | nil => intro s; simp [noiseIntRow, iterNext]
+  | cons v vs ih =>
+    intro s
+    cases v with
+    | num q =>
+      have h : drawsNoise (C11.Val.num q) = true := rfl
+      simp [noiseIntRow, List.filter_cons, h, iterNext, C05.randint, ih]
+    | nan =>
+      have h : drawsNoise C11.Val.nan = true := rfl
+      simp [noiseIntRow, List.filter_cons, h, iterNext, C05.randint, ih]
+    | nil =>
+      have h : drawsNoise C11.Val.nil = false := rfl
+      simp [noiseIntRow, List.filter_cons, h, ih]
+    | str t =>
+      have h : drawsNoise (C11.Val.str t) = false := rfl
+      simp [noiseIntRow, List.filter_cons, h, ih]
+
+theorem scanRows_take' (step : Nat → List C11.Val → Nat × List C11.Val) : ∀ (rows : List (List C11.Val)) (s k : Nat),
+    (scanRows step s rows).take k = scanRows step s (rows.take k) := by
+  intro rows
+  induction rows with
+  | nil => intro s k; simp [scanRows]
+  | cons r rs ih =>
+    intro s k
+    cases k with
+    | zero => simp [scanRows]
+    | succ k => simp [scanRows, ih]
+
+theorem noise_int_reads' (sd : List Rat → Rat) (seed lo hi : Int) (rows : List (List C11.Val)) (ds : List Demand) :
+    fitReadsFresh sd (FitStage.noiseInt seed lo hi) (.dense rows) ds
+      = ds.map (fun d => demTake d (.dense (scanRows (noiseIntRow lo hi) (C05.normInt seed) rows))) := by
+  rw [fit_reads_fresh']
+  rfl
 
 end Coba.C04
